@@ -163,6 +163,36 @@ where
         reject("other-bases", ver(&h.proof, &h.cpk, pk, &Bases::generate(pk, n), &h.revealed, &hidden, n), "fresh bases".into())?;
     }
     reject("other-commitment-key", ver(&h.proof, &CL03CommitmentPublicKey::generate::<CS>(Some(pk.N.clone()), Some(n)), pk, &h.bases, &h.revealed, &hidden, n), "fresh commitment key over the issuer modulus".into())?;
+    // single-field edits of the key material the verifier is given: each element that enters the statement, one at
+    // a time (the commitment key's modulus, h, g_0 - used for the proof on e - and the g_i of hidden positions; the
+    // signer's modulus; every base a_i whose attribute is hidden or non-zero)
+    {
+        let sq = |x: &Integer, m: &Integer| (x * x).complete() % m;
+        let mut k1 = h.cpk.clone();
+        k1.N = (&k1.N + 2u32).complete();
+        reject("commitment-key-field-changed:N", ver(&h.proof, &k1, pk, &h.bases, &h.revealed, &hidden, n), "N + 2".into())?;
+        let mut k1b = h.cpk.clone();
+        k1b.N = (&k1b.N - 2u32).complete();
+        reject("commitment-key-field-changed:N", ver(&h.proof, &k1b, pk, &h.bases, &h.revealed, &hidden, n), "N - 2".into())?;
+        let mut k2 = h.cpk.clone();
+        k2.h = sq(&k2.h, &k2.N);
+        reject("commitment-key-field-changed:h", ver(&h.proof, &k2, pk, &h.bases, &h.revealed, &hidden, n), "h := h^2".into())?;
+        for i in std::iter::once(0usize).chain(hidden.iter().cloned().filter(|&i| i != 0)) {
+            let mut k3 = h.cpk.clone();
+            k3.g_bases[i] = sq(&k3.g_bases[i], &k3.N);
+            reject("commitment-key-field-changed:g_i", ver(&h.proof, &k3, pk, &h.bases, &h.revealed, &hidden, n), format!("g_{} := g_{}^2", i, i))?;
+        }
+        let mut pk4 = pk.clone();
+        pk4.N = (&pk4.N + 2u32).complete();
+        reject("other-signer-key:N-changed", ver(&h.proof, &h.cpk, &pk4, &h.bases, &h.revealed, &hidden, n), "N + 2".into())?;
+        for i in 0..n {
+            if hidden.contains(&i) || h.vals[i] != 0 {
+                let mut b5 = h.bases.clone();
+                b5.0[i] = sq(&b5.0[i], &pk.N);
+                reject("base-changed", ver(&h.proof, &h.cpk, pk, &b5, &h.revealed, &hidden, n), format!("a_{} := a_{}^2", i, i))?;
+            }
+        }
+    }
     if let Some(other_set) = other_set_same_size(n, &hidden) {
         // the same number of revealed values, claimed at other positions
         reject("other-hidden-set", ver(&h.proof, &h.cpk, pk, &h.bases, &h.revealed, &other_set, n), format!("{:?} instead of {:?}", other_set, hidden))?;
@@ -415,7 +445,7 @@ pub fn run(ctx: &Ctx, rep: &Report) -> Meta {
     }
     Meta {
         rule: "signer key from a pool, n attributes, EVERY hidden set (none ... all) for n = 1..3 (quick) / 1..5 (thorough) plus generated cases, signatures issued directly and through blind issuance, commitment key over the issuer modulus; \
-               positive: proof_verify true with the revealed attributes in index order, proof survives JSON; negative: every revealed attribute changed, swaps, other signer key (also b or c alone changed), other bases, other commitment key, \
+               positive: proof_verify true with the revealed attributes in index order, proof survives JSON; negative: every revealed attribute changed, swaps, other signer key (also b or c alone changed), other bases, other commitment key, single-field edits of the key material (commitment key N +- 2, h, g_0 and the g_i of hidden positions squared; signer N + 2; every base a_i that matters squared), \
                another hidden set of the same size, n+1 / n-1 (also n+1 and n+3 against key material with spare bases and the true revealed list), range_proof_e replaced by an honest range proof for another commitment, every composite node of the serialised proof replaced by the node at the same path of a second honest proof for other hidden values (same key, bases, commitment key, positions; every second case), and integer leaves of the serialised proof perturbed by +1, -1, := 0, := sibling, one high bit flipped, +2^k for k in {128, 160, 256, 300} \
                (24-40 sampled perturbations per proof in quick, every leaf in thorough's fixed list); hidden-position list extended by positions >= n (appended, prepended) and by a revealed position, an honest range proof for another value transplanted onto Ce, n = 6 and 8, volume: 1400 (quick) / 12000 (thorough) honest proofs of the cheapest shapes each verified, every attribute count 9..=24 (quick) / 9..=48 (thorough) with two or three hidden positions including the last; after the negative families the honest proof and a freshly generated one verify again on the same thread; a refusal by panic counts as not verifying; non-trivial = (n, U) != (3, {0}); evaluations = verifier decisions"
             .into(),
